@@ -64,7 +64,7 @@ FamilyOf(f) ==
     [] f = "intended-a" -> {Setup(1, "dollar", "manifest", MUT, {}, 4, 2), Setup(2, "path", "dir", TLR, {}, 4, 2), Setup(3, "plain", "manifest", ALLOPS, {}, 3, 2)}
     [] f = "intended-b" -> {Setup(1, "quote", "manifest", MUT, {}, 4, 2), Setup(2, "plain", "dual", {"table", "list", "register"}, {}, 4, 2),
                             Setup(3, "mixed", "dual", MUT, {}, 3, 2)}
-    [] f = "intended-c" -> {Setup(1, "uni", "dual", MUT, {}, 4, 2)}
+    [] f = "intended-c" -> {Setup(1, "uni", "dual", MUT, {}, 3, 2), Setup(2, "uni", "manifest", TLR, {}, 3, 2)}
     [] f = "intended-d" -> {Setup(1, "plain", "manifest", MUT, {}, 3, 3), Setup(2, "dollar", "dual", ALLOPS, {}, 3, 2)}
     \* one deviation each: must break the properties named in lib/checks/c36.py
     [] f = "witness" ->
